@@ -232,6 +232,7 @@ func (r *Router) Start() {
 			return
 		}
 
+		verifC10Point("accept:before-register", r, c)
 		if err := r.registerConnection(dst, c); err != nil {
 			log.Lvl3(r.address, "does not accept incoming connection from", c.Remote(), "because it's closed")
 			// Nobody else knows this connection: close it, or it stays open
@@ -243,6 +244,7 @@ func (r *Router) Start() {
 		}
 		// start handleConn in a go routine that waits for incoming messages and
 		// dispatches them.
+		verifC10Point("accept:before-launch", r, c)
 		if err := r.launchHandleRoutine(dst, c); err != nil {
 			log.Lvl3(r.address, "does not accept incoming connection from", c.Remote(), "because it's closed")
 			return
@@ -261,6 +263,7 @@ func (r *Router) Stop() error {
 	var err error
 	err = r.host.Stop()
 	r.Unpause()
+	verifC10Point("stop:before-close", r, nil)
 	r.Lock()
 	// set the isClosed to true
 	r.isClosed = true
@@ -276,7 +279,9 @@ func (r *Router) Stop() error {
 	}
 	// wait for all handleConn to finish
 	r.Unlock()
+	verifC10Point("stop:before-wait", r, nil)
 	r.wg.Wait()
+	verifC10Point("stop:after-wait", r, nil)
 
 	if err != nil {
 		return xerrors.Errorf("stopping: %v", err)
@@ -374,6 +379,7 @@ func (r *Router) connect(si *ServerIdentity) (Conn, uint64, error) {
 		return nil, sentLen, xerrors.Errorf("sending: %v", err)
 	}
 
+	verifC10Point("connect:before-register", r, c)
 	if err = r.registerConnection(si, c); err != nil {
 		// Nobody else knows this connection: close it, or it stays open
 		// for as long as the peer keeps it.
@@ -383,6 +389,7 @@ func (r *Router) connect(si *ServerIdentity) (Conn, uint64, error) {
 		return nil, sentLen, xerrors.Errorf("register connection: %v", err)
 	}
 
+	verifC10Point("connect:before-launch", r, c)
 	if err = r.launchHandleRoutine(si, c); err != nil {
 		return nil, sentLen, xerrors.Errorf("handling routine: %v", err)
 	}
@@ -439,6 +446,7 @@ func (r *Router) handleConn(remote *ServerIdentity, c Conn) {
 	log.Lvl3(r.address, "Handling new connection from", remote.Address)
 	for {
 		packet, err := c.Receive()
+		verifC10Point("handle:received", r, c)
 
 		// Be careful not to hold r's mutex while
 		// pausing, or else Unpause would deadlock.
@@ -482,6 +490,7 @@ func (r *Router) handleConn(remote *ServerIdentity, c Conn) {
 		}
 
 		packet.ServerIdentity = remote
+		verifC10Point("handle:before-dispatch", r, c)
 
 		// Update the message counter with the new message about to be processed.
 		r.msgTraffic.updateRx(1)
